@@ -108,26 +108,56 @@ func c12(e *Env) {
 	obA := r.Ob("R1", "BaseIP.auditInfo:guarded-by-IP-lock", "every read and write of an IP's cached audit record holds the IP lock")
 	cache := p.FieldVar("scipipe", "BaseIP", "auditInfo")
 	nAcc := 0
+	// entry points: a function that touches the cache is judged in its own right when it is exported (or has no
+	// caller); a private one is judged in the context of every exported entry point that reaches it through
+	// private functions only ("the caller must hold the lock" helpers)
+	touchers := map[*ssa.Function]bool{}
 	for _, fn := range p.LibFuncs {
-		touches := false
 		for _, b := range fn.Blocks {
 			for _, in := range b.Instrs {
 				if fa, ok := in.(*ssa.FieldAddr); ok && fieldOfAddr(fa) == cache && cache != nil {
-					touches = true
+					touchers[fn] = true
 				}
 			}
 		}
-		if !touches {
-			continue
+	}
+	rootSet := map[*ssa.Function]bool{}
+	seenUp := map[*ssa.Function]bool{}
+	var up func(fn *ssa.Function)
+	up = func(fn *ssa.Function) {
+		if seenUp[fn] {
+			return
 		}
+		seenUp[fn] = true
+		callers := p.Callers(fn)
+		if (fn.Object() != nil && fn.Object().Exported()) || len(callers) == 0 || fn.Parent() != nil {
+			rootSet[fn] = true
+			return
+		}
+		for _, c := range callers {
+			if p.IsLib(c) {
+				up(c)
+			}
+		}
+	}
+	for fn := range touchers {
+		up(fn)
+	}
+	var rootsR1 []*ssa.Function
+	for _, fn := range p.LibFuncs {
+		if rootSet[fn] {
+			rootsR1 = append(rootsR1, fn)
+		}
+	}
+	for _, fn := range rootsR1 {
 		g := e.XG(fn)
 		if g == nil {
 			continue
 		}
 		li := e.locksets(g)
 		for _, n := range g.Nodes {
-			if n.Ctx != g.Root {
-				continue
+			if n.Ctx != g.Root && (!touchers[n.Ctx.Fn] || (n.Ctx.Fn.Object() != nil && n.Ctx.Fn.Object().Exported())) {
+				continue // an exported callee is judged as its own entry point
 			}
 			isAcc := false
 			switch x := n.Instr.(type) {
